@@ -31,6 +31,19 @@ func Verif_C17_RpmCompression() {
 		}
 		v.Assert(err == nil, "rpm-compression-enum-value-is-accepted")
 	}
+	// the values the documentation shows (incl. the field's default) build
+	for _, d := range []string{"gzip", "lzma", "xz", "zstd", "gzip:-1", "gzip:9", "zstd:3"} {
+		info := verifInfo("1.0.0", "", "", "", "")
+		info.RPM.Compression = d
+		m, err := buildRPMMeta(info)
+		if err == nil {
+			_, err = newRPM(m)
+		}
+		v.Assert(err == nil, "rpm-compression-documented-value-is-accepted")
+		if len(enum) > 0 {
+			v.Assert(verifInEnum(d, enum), "rpm-compression-accepted-value-is-in-the-schema-enum")
+		}
+	}
 	s := v.NondetString("compression", v.Bound("C17.len", 6, 7))
 	v.Assume(v.AllIn(s, "a-z0-9:-"))
 	info := verifInfo("1.0.0", "", "", "", "")
